@@ -1004,7 +1004,16 @@ def run_generic(ctx, per_doc=None):
     # text IN PLACE where nothing separates it from its neighbour ('*Assets:B' with flag M, '{2 EUR,2000-01-01}' without
     # the currency) changes how the line lexes - a layout matter the value properties do not address
     fixed = LEDGERS + [t for t in slotgrid.FIXTURES if t not in LEDGERS and '\r\n' not in t]
-    docs = fixed + harvest()
+    # ... but REMOVING a value there (assigning None) and creating an absent one rewrite no existing token: those two
+    # are exercised on the glued layouts too (what is removed must be the value and its own separators, never a glued sibling)
+    # (a fixture of its own: in the slot grid's glued one `{2 EUR,2000-01-01}` without the currency lexes as the number 2,2000)
+    glued = ['2000-01-03 * "payee" "narr"\n'
+             '  !Assets:A  1 USD {2# 10 USD}\n'
+             '  *Assets:B  -10.00 USD {{2#10 USD}}@@ 3 EUR\n'
+             '  Assets:C  5 USD {12.00# 3.00 USD, 2000-01-01}@ 1 EUR\n'
+             '  !Assets:D\n'
+             '2000-01-02 balance Assets:A 1~0.1 USD\n']
+    docs = fixed + glued + harvest()
     classes_seen, props_seen = set(), set()
     total = 0
     for di, text in enumerate(docs):
@@ -1028,6 +1037,21 @@ def run_generic(ctx, per_doc=None):
                 mm = resolve(root, c[0])
                 vals = all_values(mm, c[2], value_props(type(mm))[c[2]])
                 chosen += [c + (fv,) for fv in vals] or [c + (None,)]
+        elif text in glued:
+            chosen = []
+            for c in cands:
+                mm = resolve(root, c[0])
+                prop = value_props(type(mm))[c[2]]
+                if not is_optional(prop):
+                    continue
+                try:
+                    cur = prop.__get__(mm, type(mm))
+                except Exception:
+                    continue
+                if cur is not None:
+                    chosen.append(c + ((None, 'None'),))
+                else:
+                    chosen += [c + (fv,) for fv in all_values(mm, c[2], prop)[1:2]]
         else:
             k = per_doc or ctx.scale(8, 60)
             chosen = [c + (None,) for c in (cands if len(cands) <= k else rng.sample(cands, k))]
